@@ -3,6 +3,7 @@ package rules
 import (
 	"encoding/json"
 	"fmt"
+	"go/ast"
 	"go/token"
 	"go/types"
 	"os"
@@ -42,7 +43,14 @@ var c10Pkgs = []string{".", "./gen", "./gen/ir", "./gen/genfs", "./openapi", "./
 type orderExc struct {
 	Key    string `json:"key"`
 	Reason string `json:"reason"`
+	// Order is required for sort: entries. "unique-key": two distinct elements never compare equal, so the
+	// sort erases the input order and may follow a map range. "input-order": ties are possible, the entry's
+	// reason explains why the input order is deterministic — such a sort does not sanitise map-derived input.
+	Order string `json:"order,omitempty"`
 }
+
+// sortClass[key] for the sort: entries of the table.
+var sortClass = map[string]string{}
 
 func loadOrderExceptions(verif string) (map[string]string, error) {
 	b, err := os.ReadFile(filepath.Join(verif, "tables", "maporder_exceptions.json"))
@@ -61,6 +69,12 @@ func loadOrderExceptions(verif string) (map[string]string, error) {
 			return nil, fmt.Errorf("maporder_exceptions.json: entry %q has no reason", e.Key)
 		}
 		out[e.Key] = e.Reason
+		if strings.HasPrefix(e.Key, "sort:") {
+			if e.Order != "unique-key" && e.Order != "input-order" {
+				return nil, fmt.Errorf("maporder_exceptions.json: sort entry %q needs order = unique-key | input-order", e.Key)
+			}
+			sortClass[e.Key] = e.Order
+		}
 	}
 	return out, nil
 }
@@ -98,6 +112,45 @@ func runC10(c *core.Ctx) error {
 	r3 := c.NewRule("R10.3", "S1", "package-level state of the generator path written only at initialisation; pooled buffers reset", 10)
 	r4 := c.NewRule("R10.4", "S1", "comparator sorts have unique keys (reviewed)", 3)
 
+	// sort wrappers: functions that hand one of their parameters straight to a comparator sort
+	c10prog = prog
+	sortWrappers = map[*ssa.Function]string{}
+	for f := range an.Sum {
+		if !inScope(f) {
+			continue
+		}
+		for _, call := range core.Calls(f) {
+			name := core.CalleeName(call.Common())
+			if !comparatorSorts[name] && !totalSorts[name] {
+				continue
+			}
+			if len(call.Common().Args) == 0 {
+				continue
+			}
+			if _, ok := stripSliceConv(call.Common().Args[0]).(*ssa.Parameter); !ok {
+				continue
+			}
+			if totalSorts[name] {
+				sortWrappers[f] = "total"
+			} else {
+				sortWrappers[f] = sortKey(f, call.Common())
+			}
+		}
+	}
+
+	// the ranged expression as written, for stable site keys
+	rangeExpr := map[token.Pos]string{}
+	for _, p := range prog.Pkgs {
+		for _, f := range p.Syntax {
+			ast.Inspect(f, func(n ast.Node) bool {
+				if rs, ok := n.(*ast.RangeStmt); ok {
+					rangeExpr[rs.For] = types.ExprString(rs.X)
+				}
+				return true
+			})
+		}
+	}
+
 	// ---- R10.1
 	var fns []*ssa.Function
 	for f := range an.Sum {
@@ -113,7 +166,7 @@ func runC10(c *core.Ctx) error {
 		if !inScope(fn) {
 			continue
 		}
-		ord := 0
+		ordOf := map[string]int{}
 		for _, b := range fn.Blocks {
 			for _, in := range b.Instrs {
 				rg, ok := in.(*ssa.Range)
@@ -123,8 +176,13 @@ func runC10(c *core.Ctx) error {
 				if _, isMap := rg.X.Type().Underlying().(*types.Map); !isMap {
 					continue
 				}
-				key := fmt.Sprintf("%s:range#%d", fnKeyFull(fn), ord)
-				ord++
+				xs := rangeExpr[rg.Pos()]
+				if xs == "" {
+					xs = "?"
+				}
+				base := fmt.Sprintf("%s:range %s", fnKeyFull(fn), xs)
+				key := fmt.Sprintf("%s#%d", base, ordOf[base])
+				ordOf[base]++
 				problems := classifyMapRange(c, an, fn, rg)
 				if len(problems) == 0 {
 					r1.Pass(fmt.Sprintf("%s at %s: body effects are order-insensitive", key, c.Pos(core.InstrPos(rg))))
@@ -174,7 +232,7 @@ func runC10(c *core.Ctx) error {
 			default:
 				continue
 			}
-			key := fmt.Sprintf("sort:%s:%s:by=%s", fnKeyFull(fn), name, comparatorFields(prog, call.Common()))
+			key := sortKey(fn, call.Common())
 			if why, ok := exc[key]; ok {
 				r4.Justified++
 				r4.Pass(fmt.Sprintf("%s at %s: %s", key, c.Pos(call.Pos()), why))
@@ -331,7 +389,7 @@ func classifyMapRange(c *core.Ctx, an *effects.Analysis, fn *ssa.Function, rg *s
 			}
 			for _, in := range b.Instrs {
 				call, ok := in.(ssa.CallInstruction)
-				if !ok || !sortFuncs[core.CalleeName(call.Common())] {
+				if !ok || !sanitisingSort(fn, call) {
 					continue
 				}
 				for _, a := range call.Common().Args {
@@ -369,7 +427,7 @@ func classifyMapRange(c *core.Ctx, an *effects.Analysis, fn *ssa.Function, rg *s
 			}
 			for _, in := range b.Instrs {
 				call, ok := in.(ssa.CallInstruction)
-				if !ok || !sortFuncs[core.CalleeName(call.Common())] {
+				if !ok || !sanitisingSort(fn, call) {
 					continue
 				}
 				for _, a := range call.Common().Args {
@@ -514,7 +572,518 @@ func classifyMapRange(c *core.Ctx, an *effects.Analysis, fn *ssa.Function, rg *s
 			}
 		}
 	}
+
+	// ---- loop-carried SSA values. A local variable that is not address-taken has no Store: its per-element
+	// update is a phi in the loop header with a back edge from the body.
+	head := next.Block()
+	for _, in := range head.Instrs {
+		phi, ok := in.(*ssa.Phi)
+		if !ok {
+			break
+		}
+		var upd []ssa.Value
+		for i, e := range phi.Edges {
+			if inBody(head.Preds[i]) && e != ssa.Value(phi) {
+				upd = append(upd, e)
+			}
+		}
+		if len(upd) == 0 {
+			continue
+		}
+		kind, chain := carriedKind(phi, upd, inBody)
+		name := phi.Comment
+		if name == "" {
+			name = phi.Name()
+		}
+		// uses of the carried value inside the body other than its own update observe "how far the loop got"
+		observed := token.NoPos
+		for v := range chain {
+			for _, ref := range *v.Referrers() {
+				rv, isVal := ref.(ssa.Value)
+				if isVal && chain[rv] {
+					continue
+				}
+				if !inBody(ref.Block()) {
+					continue
+				}
+				if _, isDbg := ref.(*ssa.DebugRef); isDbg {
+					continue
+				}
+				if kind == "append" {
+					if call, ok := ref.(*ssa.Call); ok {
+						if b, ok := call.Common().Value.(*ssa.Builtin); ok && (b.Name() == "len" || b.Name() == "cap") {
+							observed = core.InstrPos(ref)
+						}
+					}
+					continue // reading elements appended so far is caught by its own effects
+				}
+				observed = core.InstrPos(ref)
+			}
+		}
+		switch kind {
+		case "lazyinit":
+			// the container is allocated once; what is put into it is judged by the insert's own effect
+		case "flag", "commutative":
+			if observed != token.NoPos {
+				add(observed, "loop-carried variable %s is read inside the body (its value depends on how many elements were visited before)", name)
+			}
+		case "append":
+			if !sanitisedAfterLoop(fn, chain, inBody) {
+				pos := core.InstrPos(phi)
+				if iv, ok := upd[0].(ssa.Instruction); ok {
+					pos = core.InstrPos(iv)
+				}
+				add(pos, "append to local %s in map order, and no order-erasing sort (total order, or reviewed unique-key comparator) precedes its other uses", name)
+			}
+		default:
+			pos := core.InstrPos(phi)
+			if iv, ok := upd[0].(ssa.Instruction); ok && iv.Pos() != token.NoPos {
+				pos = core.InstrPos(iv)
+			}
+			if !liveOutside(chain, inBody, head) && observed == token.NoPos {
+				continue
+			}
+			add(pos, "loop-carried variable %s is reassigned per element (last / first element wins)", name)
+		}
+	}
+	// values that leave the loop through a break: phis outside the body with an edge from a body block
+	for _, b := range fn.Blocks {
+		if inBody(b) || b == head {
+			continue
+		}
+		for _, in := range b.Instrs {
+			phi, ok := in.(*ssa.Phi)
+			if !ok {
+				break
+			}
+			for i, e := range phi.Edges {
+				if !inBody(b.Preds[i]) || isConstLike(e) {
+					continue
+				}
+				ev, isInstr := e.(ssa.Instruction)
+				if !isInstr || !(inBody(ev.Block()) || ev.Block() == head) {
+					continue // defined before the loop
+				}
+				if hp, ok := e.(*ssa.Phi); ok && hp.Block() == head {
+					continue // the carried variable itself: judged above
+				}
+				if k, _ := classify(e, 0); k == clsElement || k == clsLocal {
+					if onlyDiagnosticUses(phi, fn) {
+						continue
+					}
+					name := phi.Comment
+					if name == "" {
+						name = phi.Name()
+					}
+					add(core.InstrPos(ev), "value of %s chosen by the element that breaks out of the loop (first match wins)", name)
+				}
+			}
+		}
+	}
+	// the loop mutates the map it ranges over while its decisions read that map
+	mutPos := token.NoPos
+	readsOtherwise := false
+	sameMap := func(v ssa.Value) bool {
+		if v == rg.X {
+			return true
+		}
+		a, ok1 := v.(*ssa.UnOp)
+		b, ok2 := rg.X.(*ssa.UnOp)
+		return ok1 && ok2 && a.Op == token.MUL && b.Op == token.MUL && sameAddr(a.X, b.X)
+	}
+	var mapAddr ssa.Value
+	if ld, ok := rg.X.(*ssa.UnOp); ok && ld.Op == token.MUL {
+		mapAddr = ld.X
+	}
+	for _, b := range fn.Blocks {
+		if !inBody(b) {
+			continue
+		}
+		for _, in := range b.Instrs {
+			switch x := in.(type) {
+			case *ssa.MapUpdate:
+				if ex, ok := x.Key.(*ssa.Extract); ok && ex.Tuple == ssa.Value(next) && ex.Index == 1 {
+					continue // replaces the value of the current key: the key set is unchanged
+				}
+				if sameMap(x.Map) {
+					mutPos = core.InstrPos(x)
+				}
+			case *ssa.Lookup:
+				if sameMap(x.X) {
+					readsOtherwise = true
+				}
+			case *ssa.Range:
+				if sameMap(x.X) {
+					readsOtherwise = true
+				}
+			case *ssa.Call:
+				if bi, ok := x.Common().Value.(*ssa.Builtin); ok {
+					if bi.Name() == "delete" && sameMap(x.Common().Args[0]) {
+						mutPos = core.InstrPos(x)
+					}
+					if bi.Name() == "len" && sameMap(x.Common().Args[0]) {
+						readsOtherwise = true
+					}
+					continue
+				}
+				for _, a := range x.Common().Args {
+					if sameMap(a) {
+						readsOtherwise = true
+					}
+				}
+				if mc, ok := x.Common().Value.(*ssa.MakeClosure); ok && mapAddr != nil {
+					for _, bnd := range mc.Bindings {
+						if sameAddr(bnd, mapAddr) {
+							readsOtherwise = true
+						}
+					}
+				}
+			}
+		}
+	}
+	// a container the loop fills is also read in the body: what the read sees depends on which elements came before
+	{
+		type filled struct {
+			m   ssa.Value
+			pos token.Pos
+		}
+		var fills []filled
+		for _, b := range fn.Blocks {
+			if !inBody(b) {
+				continue
+			}
+			for _, in := range b.Instrs {
+				if mu, ok := in.(*ssa.MapUpdate); ok {
+					if k, _ := classify(mu.Map, 0); k == clsOuter && !sameMap(mu.Map) {
+						fills = append(fills, filled{mu.Map, core.InstrPos(mu)})
+					}
+				}
+			}
+		}
+		reported := map[string]bool{}
+		for _, f := range fills {
+			alias := func(v ssa.Value) bool {
+				if v == f.m {
+					return true
+				}
+				a, ok1 := v.(*ssa.UnOp)
+				b, ok2 := f.m.(*ssa.UnOp)
+				if ok1 && ok2 && a.Op == token.MUL && b.Op == token.MUL && sameAddr(a.X, b.X) {
+					return true
+				}
+				// both are members of one loop-carried chain (phi of the header / lazily allocated)
+				pa, okA := v.(*ssa.Phi)
+				pb, okB := f.m.(*ssa.Phi)
+				if okA && okB && (phiFeeds(pa, pb) || phiFeeds(pb, pa)) {
+					return true
+				}
+				return false
+			}
+			for _, b := range fn.Blocks {
+				if !inBody(b) {
+					continue
+				}
+				for _, in := range b.Instrs {
+					what := ""
+					switch x := in.(type) {
+					case *ssa.Lookup:
+						if alias(x.X) {
+							what = "looked up"
+						}
+					case *ssa.Range:
+						if alias(x.X) {
+							what = "ranged over"
+						}
+					case *ssa.Call:
+						if bi, ok := x.Common().Value.(*ssa.Builtin); ok {
+							if bi.Name() == "len" && alias(x.Common().Args[0]) {
+								what = "measured with len"
+							}
+							break
+						}
+						for _, a := range x.Common().Args {
+							if alias(a) {
+								what = "passed to " + core.CalleeName(x.Common())
+							}
+						}
+					}
+					if what != "" {
+						key := fmt.Sprint(f.pos, what)
+						if !reported[key] {
+							reported[key] = true
+							add(core.InstrPos(in), "a map filled by this loop (%s) is %s inside the body: the result depends on which elements were visited before", c.Pos(f.pos), what)
+						}
+					}
+				}
+			}
+		}
+	}
+	if mutPos != token.NoPos && readsOtherwise {
+		add(mutPos, "the loop inserts into / deletes from the map it ranges over while the body also reads that map: which entries survive depends on the visiting order")
+	}
 	return probs
+}
+
+// carriedKind classifies how a loop-carried phi is updated per element: the
+// leaves of the update (through merging phis inside the body) are the phi itself
+// (unchanged), one repeated constant (flag), a commutative accumulation, or an
+// append. It returns the set of values that carry the variable.
+func carriedKind(phi *ssa.Phi, upd []ssa.Value, inBody func(*ssa.BasicBlock) bool) (string, map[ssa.Value]bool) {
+	chain := map[ssa.Value]bool{phi: true}
+	kinds := map[string]bool{}
+	var consts []*ssa.Const
+	var visit func(v ssa.Value)
+	visit = func(v ssa.Value) {
+		if chain[v] {
+			return
+		}
+		switch x := v.(type) {
+		case *ssa.Phi:
+			if inBody(x.Block()) {
+				chain[x] = true
+				for _, e := range x.Edges {
+					visit(e)
+				}
+				return
+			}
+		case *ssa.Const:
+			consts = append(consts, x)
+			kinds["flag"] = true
+			return
+		case *ssa.MakeMap:
+			// `if v == nil { v = make(map…) }`: idempotent lazy allocation
+			if b := x.Block(); inBody(b) && len(b.Preds) == 1 {
+				if iff, ok := b.Preds[0].Instrs[len(b.Preds[0].Instrs)-1].(*ssa.If); ok && b.Preds[0].Succs[0] == b {
+					if cmp, ok := iff.Cond.(*ssa.BinOp); ok && cmp.Op == token.EQL && chain[cmp.X] && core.IsNilConst(cmp.Y) {
+						chain[x] = true
+						kinds["lazyinit"] = true
+						return
+					}
+				}
+			}
+		case *ssa.BinOp:
+			switch x.Op {
+			case token.ADD, token.OR, token.AND, token.MUL, token.XOR:
+				if b, ok := x.Type().Underlying().(*types.Basic); ok && b.Info()&(types.IsInteger|types.IsBoolean) != 0 {
+					if chain[x.X] || chain[x.Y] || isChainPhi(x.X, chain, inBody) || isChainPhi(x.Y, chain, inBody) {
+						chain[x] = true
+						kinds["commutative"] = true
+						if !chain[x.X] {
+							visitOperand(x.X, chain, inBody)
+						}
+						if !chain[x.Y] {
+							visitOperand(x.Y, chain, inBody)
+						}
+						return
+					}
+				}
+			}
+		case *ssa.Call:
+			if b, ok := x.Common().Value.(*ssa.Builtin); ok && b.Name() == "append" {
+				a0 := x.Common().Args[0]
+				if !chain[a0] {
+					visit(a0)
+				}
+				if chain[a0] {
+					chain[x] = true
+					kinds["append"] = true
+					return
+				}
+			}
+		}
+		kinds["other"] = true
+	}
+	for _, u := range upd {
+		visit(u)
+	}
+	for i := 1; i < len(consts); i++ {
+		if consts[i].Value != consts[0].Value && (consts[i].Value == nil || consts[0].Value == nil || consts[i].Value.ExactString() != consts[0].Value.ExactString()) {
+			kinds["other"] = true
+		}
+	}
+	switch {
+	case kinds["other"]:
+		return "other", chain
+	case kinds["lazyinit"]:
+		if len(kinds) == 1 {
+			return "lazyinit", chain
+		}
+		return "other", chain
+	case kinds["append"] && !kinds["commutative"] && !kinds["flag"]:
+		return "append", chain
+	case kinds["append"]:
+		return "other", chain
+	case kinds["commutative"] && !kinds["flag"]:
+		return "commutative", chain
+	case kinds["commutative"]:
+		return "other", chain
+	default:
+		return "flag", chain
+	}
+}
+
+func isChainPhi(v ssa.Value, chain map[ssa.Value]bool, inBody func(*ssa.BasicBlock) bool) bool {
+	p, ok := v.(*ssa.Phi)
+	if !ok || !inBody(p.Block()) {
+		return false
+	}
+	for _, e := range p.Edges {
+		if !chain[e] {
+			if q, ok := e.(*ssa.Phi); !ok || !isChainPhi(q, chain, inBody) {
+				return false
+			}
+		}
+	}
+	chain[p] = true
+	return true
+}
+
+func visitOperand(v ssa.Value, chain map[ssa.Value]bool, inBody func(*ssa.BasicBlock) bool) {}
+
+// liveOutside: some member of the chain is used outside the body (other than by the header phi).
+func liveOutside(chain map[ssa.Value]bool, inBody func(*ssa.BasicBlock) bool, head *ssa.BasicBlock) bool {
+	for v := range chain {
+		for _, ref := range *v.Referrers() {
+			if rv, ok := ref.(ssa.Value); ok && chain[rv] {
+				continue
+			}
+			if _, ok := ref.(*ssa.DebugRef); ok {
+				continue
+			}
+			if !inBody(ref.Block()) {
+				return true
+			}
+		}
+	}
+	return false
+}
+
+// sanitisedAfterLoop: every use outside the body of the accumulated slice (and of what is derived from it by
+// further appends, slicing and merging) is an order-erasing sort, is dominated by one, or only asks for its length.
+func sanitisedAfterLoop(fn *ssa.Function, chain map[ssa.Value]bool, inBody func(*ssa.BasicBlock) bool) bool {
+	derived := map[ssa.Value]bool{}
+	var work []ssa.Value
+	for v := range chain {
+		derived[v] = true
+		work = append(work, v)
+	}
+	type use struct {
+		in ssa.Instruction
+	}
+	var uses []ssa.Instruction
+	var sorts []ssa.Instruction
+	for len(work) > 0 {
+		v := work[len(work)-1]
+		work = work[:len(work)-1]
+		for _, ref := range *v.Referrers() {
+			if _, ok := ref.(*ssa.DebugRef); ok {
+				continue
+			}
+			if inBody(ref.Block()) {
+				continue
+			}
+			switch x := ref.(type) {
+			case *ssa.Phi:
+				if !derived[x] {
+					derived[x] = true
+					work = append(work, x)
+				}
+				continue
+			case *ssa.Slice:
+				if !derived[x] {
+					derived[x] = true
+					work = append(work, x)
+				}
+				continue
+			case *ssa.ChangeType:
+				if !derived[x] {
+					derived[x] = true
+					work = append(work, x)
+				}
+				continue
+			case *ssa.MakeInterface:
+				if !derived[x] {
+					derived[x] = true
+					work = append(work, x)
+				}
+				continue
+			case *ssa.Call:
+				if b, ok := x.Common().Value.(*ssa.Builtin); ok {
+					switch b.Name() {
+					case "append":
+						if x.Common().Args[0] == v {
+							if !derived[x] {
+								derived[x] = true
+								work = append(work, x)
+							}
+							continue
+						}
+					case "len", "cap":
+						continue
+					}
+				}
+				if sanitisingSort(fn, x) {
+					sorts = append(sorts, x)
+					continue
+				}
+			}
+			uses = append(uses, ref)
+		}
+	}
+	if len(sorts) == 0 {
+		return false
+	}
+	for _, u := range uses {
+		ok := false
+		for _, s := range sorts {
+			if s.Block() == u.Block() {
+				for _, in := range s.Block().Instrs {
+					if in == s {
+						ok = true
+						break
+					}
+					if in == u {
+						break
+					}
+				}
+			} else if s.Block().Dominates(u.Block()) {
+				ok = true
+			}
+			if ok {
+				break
+			}
+		}
+		if !ok {
+			return false
+		}
+	}
+	return true
+}
+
+// onlyDiagnosticUses: the value only feeds a return that also carries a non-nil error, or an error/format call.
+func onlyDiagnosticUses(v ssa.Value, fn *ssa.Function) bool {
+	refs := v.Referrers()
+	if refs == nil || len(*refs) == 0 {
+		return true
+	}
+	for _, ref := range *refs {
+		switch x := ref.(type) {
+		case *ssa.DebugRef:
+		case *ssa.Return:
+			nonNil := false
+			for j, r2 := range x.Results {
+				if core.IsErrorType(fn.Signature.Results().At(j).Type()) && !core.IsNilConst(r2) {
+					nonNil = true
+				}
+			}
+			if !nonNil {
+				return false
+			}
+		default:
+			return false
+		}
+	}
+	return true
 }
 
 func describeRoot(v ssa.Value) string {
@@ -1011,4 +1580,79 @@ func comparatorFields(prog *core.Prog, cc *ssa.CallCommon) string {
 		return "elements"
 	}
 	return strings.Join(out, ",")
+}
+
+var (
+	c10prog      *core.Prog
+	sortWrappers map[*ssa.Function]string
+)
+
+var totalSorts = map[string]bool{"slices.Sort": true, "sort.Strings": true, "sort.Ints": true}
+var comparatorSorts = map[string]bool{"sort.Sort": true, "sort.Slice": true, "slices.SortFunc": true, "sort.Stable": true, "sort.SliceStable": true, "slices.SortStableFunc": true}
+
+func sortKey(fn *ssa.Function, cc *ssa.CallCommon) string {
+	return fmt.Sprintf("sort:%s:%s:by=%s", fnKeyFull(fn), core.CalleeName(cc), comparatorFields(c10prog, cc))
+}
+
+func stripSliceConv(x ssa.Value) ssa.Value {
+	for i := 0; i < 8; i++ {
+		switch y := x.(type) {
+		case *ssa.Slice:
+			x = y.X
+			continue
+		case *ssa.MakeInterface:
+			x = y.X
+			continue
+		case *ssa.ChangeType:
+			x = y.X
+			continue
+		case *ssa.Convert:
+			x = y.X
+			continue
+		}
+		break
+	}
+	return x
+}
+
+// sanitisingSort reports whether the call erases the order of its argument:
+// a total-order sort of the elements, a comparator sort whose reviewed entry
+// says its key is unique, or a wrapper of one of these.
+func sanitisingSort(fn *ssa.Function, call ssa.CallInstruction) bool {
+	cc := call.Common()
+	name := core.CalleeName(cc)
+	if totalSorts[name] {
+		return true
+	}
+	if comparatorSorts[name] {
+		return sortClass[sortKey(fn, cc)] == "unique-key"
+	}
+	if callee := cc.StaticCallee(); callee != nil {
+		if k, ok := sortWrappers[callee]; ok {
+			return k == "total" || sortClass[k] == "unique-key"
+		}
+	}
+	return false
+}
+
+// phiFeeds: a is (transitively) an edge of b.
+func phiFeeds(a, b *ssa.Phi) bool {
+	seen := map[*ssa.Phi]bool{}
+	var walk func(p *ssa.Phi) bool
+	walk = func(p *ssa.Phi) bool {
+		if p == a {
+			return true
+		}
+		if seen[p] {
+			return false
+		}
+		seen[p] = true
+		for _, e := range p.Edges {
+			if q, ok := e.(*ssa.Phi); ok && walk(q) {
+				return true
+			}
+		}
+		return false
+	}
+	return walk(b)
 }
